@@ -112,6 +112,15 @@ module Nat =
     | S n' -> (match m with
                | O -> false
                | S m' -> leb n' m')
+
+  (** val min : nat -> nat -> nat **)
+
+  let rec min n0 m =
+    match n0 with
+    | O -> O
+    | S n' -> (match m with
+               | O -> O
+               | S m' -> S (min n' m'))
  end
 
 module Pos =
@@ -834,6 +843,14 @@ let try_into_i16 w c =
   then Some s
   else None
 
+(** val append : positive -> positive -> positive **)
+
+let rec append i j =
+  match i with
+  | XI ii -> XI (append ii j)
+  | XO ii -> XO (append ii j)
+  | XH -> j
+
 module PositiveMap =
  struct
   type key = positive
@@ -872,6 +889,24 @@ module PositiveMap =
      | XI ii -> Node (l, o, (add ii v r))
      | XO ii -> Node ((add ii v l), o, r)
      | XH -> Node (l, (Some v), r))
+
+  (** val xelements : 'a1 t -> key -> (key * 'a1) list **)
+
+  let rec xelements m i =
+    match m with
+    | Leaf -> []
+    | Node (l, o, r) ->
+      (match o with
+       | Some x ->
+         app (xelements l (append i (XO XH))) ((i,
+           x) :: (xelements r (append i (XI XH))))
+       | None ->
+         app (xelements l (append i (XO XH))) (xelements r (append i (XI XH))))
+
+  (** val elements : 'a1 t -> (key * 'a1) list **)
+
+  let elements m =
+    xelements m XH
  end
 
 type event =
@@ -2537,3 +2572,134 @@ let rec ir_steps w e limited n0 c =
 let ir_machine_run w e limited budget n0 p =
   ir_steps w e limited n0 { i_ctl = (snd p); i_kont = []; i_st =
     (ir0 budget) }
+
+(** val cmd_eqb : cmd -> cmd -> bool **)
+
+let rec cmd_eqb a b =
+  match a with
+  | Inc -> (match b with
+            | Inc -> true
+            | _ -> false)
+  | Dec -> (match b with
+            | Dec -> true
+            | _ -> false)
+  | Left -> (match b with
+             | Left -> true
+             | _ -> false)
+  | Right -> (match b with
+              | Right -> true
+              | _ -> false)
+  | Out -> (match b with
+            | Out -> true
+            | _ -> false)
+  | In -> (match b with
+           | In -> true
+           | _ -> false)
+  | Loop x ->
+    (match b with
+     | Loop y ->
+       let rec leq x0 y0 =
+         match x0 with
+         | [] -> (match y0 with
+                  | [] -> true
+                  | _ :: _ -> false)
+         | c :: x' ->
+           (match y0 with
+            | [] -> false
+            | d :: y' -> (&&) (cmd_eqb c d) (leq x' y'))
+       in leq x y
+     | _ -> false)
+
+(** val cmds_eqb : cmd list -> cmd list -> bool **)
+
+let rec cmds_eqb x y =
+  match x with
+  | [] -> (match y with
+           | [] -> true
+           | _ :: _ -> false)
+  | c :: x' ->
+    (match y with
+     | [] -> false
+     | d :: y' -> (&&) (cmd_eqb c d) (cmds_eqb x' y'))
+
+(** val kont_eqb :
+    (cmd list * cmd list) list -> (cmd list * cmd list) list -> bool **)
+
+let rec kont_eqb x y =
+  match x with
+  | [] -> (match y with
+           | [] -> true
+           | _ :: _ -> false)
+  | p :: x' ->
+    let (a1, b1) = p in
+    (match y with
+     | [] -> false
+     | p0 :: y' ->
+       let (a2, b2) = p0 in
+       (&&) ((&&) (cmds_eqb a1 a2) (cmds_eqb b1 b2)) (kont_eqb x' y'))
+
+(** val tgetp : tmap -> positive -> z **)
+
+let tgetp t0 p =
+  match PositiveMap.find p t0 with
+  | Some v -> v
+  | None -> Z0
+
+(** val tmap_sub : tmap -> tmap -> bool **)
+
+let tmap_sub a b =
+  forallb (fun kv -> Z.eqb (tgetp b (fst kv)) (snd kv))
+    (PositiveMap.elements a)
+
+(** val tmap_eqb : tmap -> tmap -> bool **)
+
+let tmap_eqb a b =
+  (&&) (tmap_sub a b) (tmap_sub b a)
+
+(** val eff_in_pos : env -> bfst -> nat **)
+
+let eff_in_pos e s =
+  Nat.min s.io.in_pos (length e.input)
+
+(** val cfg_equiv : env -> bfcfg -> bfcfg -> bool **)
+
+let cfg_equiv e c1 c2 =
+  (&&)
+    ((&&)
+      ((&&)
+        ((&&) (cmds_eqb c1.c_ctl c2.c_ctl) (kont_eqb c1.c_kont c2.c_kont))
+        (tmap_eqb c1.c_st.tape c2.c_st.tape)) (Z.eqb c1.c_st.ptr c2.c_st.ptr))
+    (Nat.eqb (eff_in_pos e c1.c_st) (eff_in_pos e c2.c_st))
+
+(** val bf_cfg_after : z -> env -> nat -> bfcfg -> bfcfg option **)
+
+let rec bf_cfg_after w e n0 c =
+  match n0 with
+  | O -> Some c
+  | S n' ->
+    (match bf_step w e c with
+     | Next c' -> bf_cfg_after w e n' c'
+     | Final _ -> None)
+
+(** val env_fault_free : env -> bool **)
+
+let env_fault_free e =
+  (&&)
+    ((&&) (negb e.in_absent)
+      (match e.in_fail_at with
+       | Some _ -> false
+       | None -> true))
+    (match e.out_fail_at with
+     | Some _ -> false
+     | None -> true)
+
+(** val cert_ok : z -> env -> cmd list -> nat -> nat -> bool **)
+
+let cert_ok w e p i d =
+  (&&) (env_fault_free e)
+    (match bf_cfg_after w e i { c_ctl = p; c_kont = []; c_st = bf0 } with
+     | Some ci ->
+       (match bf_cfg_after w e (S d) ci with
+        | Some cj -> cfg_equiv e ci cj
+        | None -> false)
+     | None -> false)
